@@ -318,6 +318,10 @@ func (repo *Repository) ProcessHeader(ctx context.Context, header *wire.BlockHea
 	repo.Lock()
 	defer repo.Unlock()
 
+	if !bitsAreDecodable(header.Bits) {
+		return ErrInvalidTarget
+	}
+
 	if !repo.disableDifficulty && !header.WorkIsValid() {
 		return ErrNotEnoughWork
 	}
@@ -499,6 +503,16 @@ func (repo *Repository) ProcessHeader(ctx context.Context, header *wire.BlockHea
 	}
 
 	return nil
+}
+
+// bitsAreDecodable returns false for compact target encodings with an effective size of one byte, which
+// the conversion to a difficulty value cannot decode (it indexes past the end of its buffer).
+func bitsAreDecodable(bits uint32) bool {
+	length := uint8(bits >> 24)
+	if bits&0x00ff0000 == 0 {
+		length-- // leading zero byte is dropped by the conversion
+	}
+	return length != 1
 }
 
 func (repo *Repository) sendBranchUpdate(branch, previousLongest *Branch) error {
